@@ -19,6 +19,27 @@ CLAIMS = {
          'Trusted: Lean kernel (propext, Classical.choice, Quot.sound), the threshold list in Spec/Scoring.lean as the official scale '
          '(IMPS_LIST_is_official ties the code table to it), CPython unbounded int semantics; model faithfulness outside the sampled integers.',
          'Lean 4 proof by induction (unbounded Int) + dense differential correspondence'),
+ 'C01': ('Lean 4 theorem auction_refines_laws: for every dealer, vulnerability and every finite sequence of offered calls (legal or not, '
+         'also after the end) the model of BiddingPhase.take_bid keeps exactly the history the Laws accept, answers every offer as the Laws '
+         'prescribe (illegal / ongoing / finished / error) and advertises exactly the legal set while open; one-step forms '
+         'take_bid_accepts_iff_legal, illegal_reported_and_state_unchanged, avail_vector_is_legal_set. Proof by an invariant (AInv) '
+         'preserved by take_bid, unbounded histories. The Laws are stated on the history alone (Spec/Laws.lean: legalLaw, EndedLaw). '
+         'Model tied to /repo by step-wise differential correspondence of every public observable after every offered call.',
+         'Trusted: Lean kernel (propext, Classical.choice, Quot.sound); the statement of the Laws in Spec/Laws.lean; model faithfulness '
+         'on auctions not sampled by the correspondence campaign (distribution in the evidence); numpy 0/1 vector semantics.',
+         'Lean 4 proof (refinement invariant, induction over the offered-call list) + differential correspondence'),
+ 'C02': ('Lean 4 theorems: turn_rotates, active_is_turn, per_seat_is_share, over_iff_ended_law and finishes_iff_ended (the model finishes '
+         'exactly when the new history satisfies the Law: four opening passes or three passes after a non-pass; never earlier or later), '
+         'after_end_raises_and_unchanged / after_end_run_unchanged, auction_terminates (<= 319 calls, by a lexicographic potential) '
+         'with bound_is_attained (a legal 319-call auction, kernel-evaluated). All for every reachable state, unbounded.',
+         'Trusted: as C01.',
+         'Lean 4 proof (invariant + potential function) + differential correspondence'),
+ 'C03': ('Lean 4 theorems: contract_none_before_end, contract_is_spec (ended => contract = specContract: last bid, doubling status from the '
+         'calls after it, board vulnerability, declarer = first member of the last bidder\'s side to name the denomination), '
+         'first_namer_some/first_namer_none/declarer_is_first_namer (declarative characterisation of the declarer), '
+         'superseded_double_cleared, passed_out_iff_no_bid, passed_out_shape, flags_follow_status. Every reachable state.',
+         'Trusted: as C01; the contract is compared through doubling STATUS, level/denomination, vulnerability and declarer.',
+         'Lean 4 proof (refinement invariant) + differential correspondence'),
 }
 PENDING = 'check not built yet in this session (work in progress, see DESIGN.md section 9); will be claimed when its theorems and correspondence run'
 
